@@ -21,6 +21,7 @@ import (
 	"errors"
 	"fmt"
 	"reflect"
+	"sort"
 
 	"github.com/cloudwego/eino/components/document"
 	"github.com/cloudwego/eino/components/embedding"
@@ -817,6 +818,17 @@ func (g *graph) compile(ctx context.Context, opt *graphCompileOptions) (*composa
 	}
 
 	if runType == runTypeDAG {
+		var orphans []string
+		for node := range r.chanSubscribeTo {
+			if len(controlPredecessors[node]) == 0 && len(dataPredecessors[node]) == 0 {
+				orphans = append(orphans, node)
+			}
+		}
+		if len(orphans) > 0 {
+			// nothing ever triggers such a node: its channel would report 'ready' every time it is polled
+			sort.Strings(orphans)
+			return nil, fmt.Errorf("DAG invalid, node[%s] has no predecessor", orphans[0])
+		}
 		err := validateDAG(r.chanSubscribeTo, controlPredecessors)
 		if err != nil {
 			return nil, err
